@@ -2,6 +2,7 @@ import NrDaemon.Lemmas.Metrics
 import NrDaemon.Model.Rules
 import NrDaemon.Props.Tied
 import NrDaemon.Model.Regex
+import NrDaemon.Lemmas.Regex
 /-!
   C07 — metric aggregation is order-independent and rename rules are applied faithfully.
 
@@ -361,3 +362,16 @@ example : ambiguousReplacement ['x', '\\', '\\', '1'] = true ∧ ambiguousReplac
 -- (evaluation, not proof: the kernel does not reduce `Array.extract`)
 #guard (applyRulesX [{ order := 1, re := .seq (.grp 1 (.chr 'a')) (.grp 2 (.chr 'b')), repl := ['\\', '2', '\\', '1'] }] ['x', 'a', 'b', 'y']).2
     == ['x', 'b', 'a', 'y']
+
+/-- **C07 (a name no rule matches is reported unchanged; regex rules).**  If the chain reports "unmatched" the name that
+comes out is the name that went in — for every rule list, every combination of flags (each_segment splits and re-joins the
+name losslessly) and every name. -/
+theorem C07_rx_unmatched_unchanged (rs : List RuleX) (s out : Str) (h : applyRulesX rs s = (.unmatched, out)) : out = s :=
+  applyChainX_unmatched _ s out h
+
+/-- **C07 (a match lies inside the name).**  The leftmost match the model finds starts at or after the position the search
+started from, ends no earlier than it starts and no later than the name does — so cutting the name into "before, match,
+after" (`replaceFirst`, `ReplaceAllString`) is well defined. -/
+theorem C07_rx_match_within_input (re : Re) (inp : Array Char) (from_ s e : Nat) (c : Caps)
+    (h : re.find inp from_ = some (s, e, c)) : from_ ≤ s ∧ s ≤ e ∧ e ≤ inp.size :=
+  Re.find_bounds re inp from_ s e c h
